@@ -29,6 +29,18 @@ def run(ctx: Context) -> None:
         from . import infra as _infra198
         _infra198.keyword_overrides_kept(ctx, 'R19.8', ['emsarray.conventions._base.Convention.make_poly_collection', 'emsarray.conventions._base.Convention.make_quiver'],
                                          ['array', 'clim', 'transform'], required=['transform'])
+        # an array handed in instead of a name is checked against the dataset before it is drawn on the dataset's cells
+        _CD = 'emsarray.utils.check_data_array_dimensions_match'
+        _infra198.refuses_only_when(ctx, 'R19.8', _CD, 'Dimension mismatch between dataset and data array', [('data_array_size == dataset_size', False), ('data_array_size != dataset_size', True)],
+                                    "an array whose size along a dimension differs from the dataset's is refused - and only such an array")
+        _infra198.refuses_only_when(ctx, 'R19.8', _CD, 'Dataset does not have dimension', [('dimension in dataset.dims', False), ('dimension in dataset.sizes', False), ('dimension not in dataset.dims', True)],
+                                    "an array on a dimension the dataset does not have is refused")
+        _infra198.none_default_discipline(ctx, 'R19.8', [_CD])
+        _nd = ctx.func('emsarray.utils.name_to_data_array')
+        _calls = [c for c in calls_in(_nd) if callee(ctx, _nd, c) == _CD]
+        ctx.check('R19.8', len(_calls) == 1 and len(_calls[0].args) == 2 and [norm_text(a) for a in _calls[0].args] == [_nd.params[0], _nd.params[1]],
+                  "name_to_data_array checks an array it is handed against the dataset it is handed", _nd, _calls[0] if _calls else _nd.node,
+                  construct=f"{norm_text(_calls[0]) if _calls else 'no check'}")
         _AF = 'emsarray.conventions._base.Convention.animate_on_figure'
         _infra198.refuses_only_when(ctx, 'R19.8', _AF, 'Coordinate variable must be one dimensional', [('len(coordinate.dims) == 1', False), ('len(coordinate.dims) != 1', True), ('coordinate.ndim == 1', False), ('coordinate.ndim != 1', True)],
                                     "an animation runs along a one dimensional coordinate: any other is refused")
@@ -265,6 +277,8 @@ from ..variants import V  # noqa: E402
 _B = 'src/emsarray/conventions/_base.py'
 _P = 'src/emsarray/plot.py'
 VARIANTS = [
+    V('C19', 'array-of-another-size-accepted', 'src/emsarray/utils.py', "        if data_array_size != dataset_size:", "        if data_array_size == dataset_size:", 'R19.8'),
+    V('C19', 'array-not-checked-against-the-dataset', 'src/emsarray/utils.py', "    if isinstance(data_array, xarray.DataArray):\n        check_data_array_dimensions_match(dataset, data_array)\n        return data_array", "    if isinstance(data_array, xarray.DataArray):\n        return data_array", 'R19.8'),
     V('C19', 'animation-scalar-without-the-axis-accepted', 'src/emsarray/conventions/_base.py', "            if coordinate_dim not in scalar.dims:\n                raise ValueError(\"Scalar dimensions do not match coordinate axis to animate along\")\n", "", 'R19.8'),
     V('C19', 'animation-scalar-never-handed-on', 'src/emsarray/conventions/_base.py', "            kwargs['scalar'] = scalar\n\n        if vector is not None:", "            pass\n\n        if vector is not None:", 'R19.8'),
     V('C19', 'default-transform-never-set', 'src/emsarray/conventions/_base.py', "        if 'transform' not in kwargs:\n            kwargs['transform'] = self.data_crs\n\n        return polygons_to_collection", "        return polygons_to_collection", 'R19.8'),
